@@ -156,6 +156,21 @@ class Run:
         os.makedirs(CASES, exist_ok=True)
         os.makedirs(REPLAYS, exist_ok=True)
         os.makedirs(EVID, exist_ok=True)
+        sys.excepthook = self._crashed
+
+    def _crashed(self, etype, exc, tb):
+        """the harness could not drive the implementation (the code changed under it): the correspondence is no longer
+        established, which is reported like any other broken correspondence - after whatever the oracles already found"""
+        import traceback
+        text = ''.join(traceback.format_exception(etype, exc, tb))
+        sys.stderr.write(text)
+        self.corr.append(dict(name='harness-could-not-run-the-implementation', model_function='-', cases=0, disagreements=1,
+                              first=dict(traceback=text[-3000:])))
+        try:
+            self.finish()
+        finally:
+            sys.stdout.flush()
+            os._exit(1)
 
     def n(self, quick, thorough):
         return thorough if self.thorough else quick
@@ -378,6 +393,35 @@ class Run:
         )
         with open(os.path.join(EVID, self.pid + '.json'), 'w') as f:
             json.dump(ev, f, indent=1, default=repr)
+
+
+class FakeTime:
+    """stand-in for the `time` module bound to a virtual clock: time()/time_ns() are the virtual wall clock, monotonic()/
+    perf_counter() the virtual time since the world started (small numbers, like the real ones, so code that compares a
+    monotonic reading with an epoch timestamp misbehaves here exactly as it does in production); everything else
+    (strftime, localtime, ...) is the real module"""
+
+    def __init__(self, now_ns, sleep, base_ns=None):
+        import time as _t
+        self._real, self._now, self.sleep = _t, now_ns, sleep
+        self._base = now_ns() if base_ns is None else base_ns
+
+    def time(self):
+        return self._now() / 1e9
+
+    def time_ns(self):
+        return int(self._now())
+
+    def monotonic(self):
+        return 5.0 + (self._now() - self._base) / 1e9
+
+    def monotonic_ns(self):
+        return 5 * 10 ** 9 + int(self._now() - self._base)
+
+    perf_counter, perf_counter_ns = monotonic, monotonic_ns
+
+    def __getattr__(self, name):
+        return getattr(self._real, name)
 
 
 def setup_impl_path():
